@@ -593,6 +593,7 @@ def u16be(n, start, simd):
 U16DEEP = {r"spec_block_end|c16_": 52, r"find_block_scalar_end_(sse2|avx2).*[.]0$": 36, r"find_block_scalar_end_(sse2|avx2).*[.][12]$": 34, r"find_block_scalar_end_(sse2|avx2).*[.]3$": 5, r"find_block_scalar_end_scalar": 50}
 
 PROPS["C16"] = dict(
+    replay_envs=[{}, {"SUCCINCTLY_SIMD": "sse2"}],
     module="c16",
     bounds=("kernel half only: every public yaml::simd kernel (find_quote_or_escape, find_single_quote, count_leading_spaces, find_newline, find_block_scalar_end, "
             "parse_anchor_name, classify_yaml_chars<HAS_CR>) on every buffer of 12..=70 bytes at the listed concrete start offsets, end / min_indent symbolic; AVX2 path, SSE2 "
